@@ -5,7 +5,7 @@ From XD Require Import model.Opt.
 Import ListNotations.
 
 Ltac stsimpl :=
-  unfold set_knobs, set_va, set_ta, set_sx, set_mfl, set_eval, set_pen, set_alpha, set_bro, set_log in *;
+  unfold set_knobs, set_va, set_ta, set_sx, set_mfl, set_eval, set_eval0, set_pen, set_alpha, set_bro, set_log in *;
   cbn [knobs va ta sx mfl lpwt lres ltw pen_after alpha_last bro log ncall] in *.
 
 Lemma map2_length {A B C} (g : A -> B -> C) a b : length (map2 g a b) = Nat.min (length a) (length b).
